@@ -168,6 +168,8 @@ def run_v(engine_v, repo, prog, pid):
         if u in set(prog.get("soft_units", [])):
             # a sub-claim that rests on this unit is no longer established; the property's main claim does not depend on it
             o["undecided"].append("sub-claim not re-established after a change of %s (%s): %s" % (u, prog.get("soft_reason", "see DESIGN"), f["obligation"]))
+        elif u in units and any(fi.get("unit") == u and fi.get("closures") for fi in r.get("funcs", [])):
+            o["undecided"].append("%s now contains a closure whose effect Verus does not infer (argument of map / and_then / fold ...): the failed obligation %s is a tool limit, not a finding" % (u, f["obligation"]))
         elif u in units and not (prog.get("exclude") and re.search(prog["exclude"], f["obligation"])):
             if f["obligation"] not in [g["obligation"] for g in o["failures"]]:
                 o["failures"].append(f)
@@ -184,6 +186,8 @@ def run_v(engine_v, repo, prog, pid):
     fb = [f for f in r.get("function_breakdown", []) if "vcanary_" not in f["function"]]
     o["obligations"] = len(fb)
     o["discharged"] = len([f for f in fb if f["ok"]])
+    # functions whose obligations were discharged by the second run (non-linear arithmetic switched on)
+    o["discharged"] = min(o["obligations"], o["discharged"] + len({d.split("[")[0].rsplit(":", 1)[0] for d in r.get("nl_retry", {}).get("dropped", [])}))
     o["foreign_failures"] = foreign
     o["canaries"] = sorted(want_canaries)
     return o
@@ -240,7 +244,8 @@ def write_evidence(pid, prop, tier, seed, outcomes, violations, known_hits, unde
         bounded_checks=[dict(engine=o["engine"], name=o.get("name"), bound=o.get("bound"), cases=o.get("obligations", 0), passed=o.get("discharged", 0),
                              not_decided=o.get("not_decided", [])) for o in bounded],
         engines=[dict(engine=o["engine"], name=o.get("name"), obligations=o.get("obligations", 0), discharged=o.get("discharged", 0), bounded=bool(o.get("bounded")),
-                      undecided=o.get("undecided", [])) for o in outcomes],
+                      undecided=o.get("undecided", []),
+                      discharged_only_with_nonlinear_arithmetic=(o.get("detail") or {}).get("nl_retry", {}).get("dropped", []) if isinstance(o.get("detail"), dict) else []) for o in outcomes],
         samples=samples[:40] or [dict(note="no obligations ran")],
         not_decided=prop.get("not_decided", []),
         known_findings=[dict(what=k["what"], obligation=f["obligation"]) for k, f in known_hits],
